@@ -68,7 +68,7 @@ OK18(e) ==
              /\ e.n.acc.sys = NameIsSys(e.b)
     /\ Has(e, "pkt") =>
           /\ NoPanic(e.pkt)
-          /\ \A k \in {"v3pub", "v5pub", "v3will", "v5will", "v31will", "v3pub0", "v5pub0"} :
+          /\ \A k \in {"v3pub", "v5pub", "v3will", "v5will", "v31will", "v3pub0", "v5pub0", "v5pubalias"} :
                 e.pkt[k] = (IF ok THEN "ok" ELSE "InvalidTopicName")
           /\ \A k \in {"v5resp", "v5willresp"} :
                 e.pkt[k] = (IF ok THEN "ok" ELSE "InvalidResponseTopic")
